@@ -417,6 +417,9 @@ def class_level_mutables(check: Check, repo: Repo) -> None:
                         continue
                     frel, fnode = repo.class_table[fam]
                     for fn in [x for x in fnode.body if isinstance(x, ast.FunctionDef)]:
+                        # locals that alias the class-level object: `ops = self._LED_OPS`
+                        aliases = {t.id for a_ in ast.walk(fn) if isinstance(a_, ast.Assign) and isinstance(a_.value, ast.Attribute) and a_.value.attr == attr
+                                   and (ast.unparse(a_.value.value) in ("self", "cls", cname, "type(self)", "self.__class__")) for t in a_.targets if isinstance(t, ast.Name)}
                         for n in ast.walk(fn):
                             # per-instance (re)binding in __init__
                             if fn.name == "__init__" and isinstance(n, (ast.Assign, ast.AnnAssign)):
@@ -437,6 +440,8 @@ def class_level_mutables(check: Check, repo: Repo) -> None:
                                 mutated.append(f"{fam}.{fn.name}")
                             if recv is not None and isinstance(recv, ast.Attribute) and recv.attr == attr and ast.unparse(recv.value) in (cname, "type(self)", "self.__class__"):
                                 mutated.append(f"{fam}.{fn.name}")
+                            if recv is not None and isinstance(recv, ast.Name) and recv.id in aliases:
+                                mutated.append(f"{fam}.{fn.name} (through the alias {recv.id})")
                 construct = f"{rel}::{cname}.{attr}"
                 # the base class must shadow (then every instance, of every subclass calling super().__init__, has its own)
                 ok = not mutated or cname in shadowed_in
